@@ -197,6 +197,7 @@ structure State where
   fdFed : Bool := shared                -- the script is read from a descriptor (`FdReader2` + `Echo`)
   aborted : Bool := false               -- a nested read-eval loop (`eval`, `.`) hit a syntax error
   nonblock : Bool := false              -- O_NONBLOCK of the open file description of standard input
+  errRep : Bool := false                -- a nested read-eval loop reported a syntax error (also inside a subshell)
   deriving Repr
 
 def State.stdin (s : State) : List Byte := if s.shared then s.inp else s.data
@@ -449,6 +450,11 @@ def execCat (s : State) (here : Option (List Char)) : State :=
     { s' with out := (outLines (all.length + 1) all).reverse ++ s'.out, status := 0,
               hitEof := s'.hitEof || s'.shared }
 
+/-- the special built-ins among them (`Type::Special`): an error in their redirections makes a
+    non-interactive shell exit -/
+def isSpecial (name : String) : Bool :=
+  name == ":" || name == "set" || name == "eval" || name == "."
+
 /-- the utilities the scripts use (`a1`…`a3` are harness built-ins named like the aliases) -/
 inductive Util where
   | probe | aliasName | st | colon | read | alias | unalias | set | cat | echo | unknown
@@ -609,7 +615,14 @@ def stepSrc (text : List Byte) (echoes executed : Bool) (k : List K) (s : State)
      { s with echo := if s.verbose && echoes
                       then s.echo ++ toBytes (toChars (pull (parserOf s) (text.length + 1) [] text).text)
                       else s.echo,
-              status := 2, aborted := s.aborted || (unwind k).isNone })
+              status := 2, aborted := s.aborted || (unwind k).isNone, errRep := true })
+
+/-- a redirection error on this command makes the shell exit: a simple command whose name (after
+    expansion) is a special built-in (`simple_command/builtin.rs`: `Special` → `Divert::Interrupt`) -/
+def redirErrorExits (s : State) (c : Cmd) : Bool :=
+  match c with
+  | .simple ws _ => ((expandWords s.vars s.status ws).head?.map isSpecial).getD false
+  | _ => false
 
 /-- one step of command execution; `none` when the continuation is empty -/
 def step (k : List K) (s : State) : Option (List K × State) :=
@@ -643,6 +656,10 @@ def step (k : List K) (s : State) : Option (List K × State) :=
     -- `perform_redirs`, the command, `undo_redirs`; a redirection that fails (`cannot open the
     -- file`): the command is not run, `$?` = 2, what was redirected so far is undone
     if (performIn rs [] s).2.2 then some (.cmd c :: .undo (performIn rs [] s).1 :: k, (performIn rs [] s).2.1)
+    else if redirErrorExits s c then
+      -- a special built-in: the (sub)shell exits with that status, nothing more is read
+      some (dropGuards k, { undoIn (performIn rs [] s).1 (performIn rs [] s).2.1 with
+                              status := 2, aborted := s.aborted || (unwind k).isNone })
     else some (k, { undoIn (performIn rs [] s).1 (performIn rs [] s).2.1 with status := 2 })
   | .undo saved :: k => some (k, undoIn saved s)
   | .negK :: k => some (k, { s with status := if s.status = 0 then 1 else 0 })
